@@ -1370,6 +1370,8 @@ pub struct AddFont {
     old_font_page: usize,
     new_font_page: usize,
     font: BitFont,
+    /// font that occupied the slot before the add (adding to a used slot replaces it)
+    replaced_font: Option<BitFont>,
 }
 
 impl AddFont {
@@ -1378,6 +1380,7 @@ impl AddFont {
             old_font_page,
             new_font_page,
             font,
+            replaced_font: None,
         }
     }
 }
@@ -1388,12 +1391,18 @@ impl UndoOperation for AddFont {
     }
 
     fn undo(&mut self, edit_state: &mut EditState) -> EngineResult<()> {
-        edit_state.buffer.remove_font(self.new_font_page);
+        match self.replaced_font.take() {
+            Some(font) => edit_state.buffer.set_font(self.new_font_page, font),
+            None => {
+                edit_state.buffer.remove_font(self.new_font_page);
+            }
+        }
         edit_state.caret.set_font_page(self.old_font_page);
         Ok(())
     }
 
     fn redo(&mut self, edit_state: &mut EditState) -> EngineResult<()> {
+        self.replaced_font = edit_state.buffer.get_font(self.new_font_page).cloned();
         edit_state.buffer.set_font(self.new_font_page, self.font.clone());
         edit_state.caret.set_font_page(self.new_font_page);
         Ok(())
